@@ -7,6 +7,7 @@ import QcoVerif.Driver.Conn
 import QcoVerif.Driver.Ident
 import QcoVerif.Driver.Noise
 import QcoVerif.Driver.RepCode
+import QcoVerif.Driver.Py
 /-
   Line-protocol driver.  `heap <cmd…>` drives a stateful build-program session (extensions add
   commands); every other module is stateless: `<module> <args…>` → one answer line.
@@ -16,7 +17,7 @@ open Qco Qco.Driver
 
 def stateless : List (String × (List String → String)) :=
   [("kernel", Kernel.handle), ("conn", Conn.handle), ("ident", Ident.handle), ("noise", Noise.handle),
-   ("repcode", RepCode.handle)]
+   ("repcode", RepCode.handle), ("py", Qco.Driver.Py.handle)]
 
 def heapExtensions : List (Sess → List String → Option (Sess × String)) :=
   [HeapStim.step, HeapOpenQL.step, HeapDraw.step]
